@@ -246,9 +246,12 @@ pub struct Acc {
     // of two threads of one run (count, sum, sum of squares) and of consecutive signatures of one thread
     pub cx: [f64; 3],
     pub l1: [f64; 3],
+    /// sibling leaves: per signature, sum over bottom nodes of w * (v_left^2 - v_right^2) / sigma^2 with
+    /// w = d_left/d_right - d_right/d_left, real minus reference (count, sum, sum of squares)
+    pub sib: [f64; 3],
 }
 
-const ACC_HEAD: usize = 16;
+const ACC_HEAD: usize = 19;
 
 impl Acc {
     fn new(dirs: usize) -> Acc {
@@ -269,6 +272,7 @@ impl Acc {
             dsq_sq: vec![0.0; dirs],
             cx: [0.0; 3],
             l1: [0.0; 3],
+            sib: [0.0; 3],
         }
     }
     fn to_blob(&self) -> Vec<u8> {
@@ -283,7 +287,7 @@ impl Acc {
         b.extend_from_slice(&self.dn_sum.to_le_bytes());
         b.extend_from_slice(&self.dn_sq.to_le_bytes());
         b.extend_from_slice(&0u64.to_le_bytes());
-        for v in self.cx.iter().chain(self.l1.iter()) {
+        for v in self.cx.iter().chain(self.l1.iter()).chain(self.sib.iter()) {
             b.extend_from_slice(&v.to_le_bytes());
         }
         for v in self.sum.iter().chain(self.sq.iter()).chain(self.cross.iter()).chain(self.dsq_sum.iter()).chain(self.dsq_sq.iter()) {
@@ -306,6 +310,7 @@ impl Acc {
         for i in 0..3 {
             self.cx[i] += f(10 + i);
             self.l1[i] += f(13 + i);
+            self.sib[i] += f(16 + i);
         }
         let d = self.sum.len();
         let c = self.cross.len();
@@ -392,9 +397,13 @@ fn run_chunk<V: Variant, W: Variant>(seed: u64, run: u64, key_index: usize, chun
     let (res, sched) = if rotation {
         // on this thread, without the scheduler
         let mut v = Vec::new();
-        for op in &plan.threads[0] {
+        for (oi, op) in plan.threads[0].iter().enumerate() {
             if let (Op::Sign { msg, .. }, Some(sp)) = (op, op.sign_plan()) {
-                let (r, trace) = crate::world::sign_sim::<V>(&keys[0].0, msg, &sp, None);
+                // every other signature is made through a fresh clone of the key (a clone per request):
+                // whatever a key object carries besides the key must not be shared by its copies
+                let through_clone = if oi % 2 == 1 { Some(keys[0].0.clone()) } else { None };
+                let signer = through_clone.as_ref().unwrap_or(&keys[0].0);
+                let (r, trace) = crate::world::sign_sim::<V>(signer, msg, &sp, None);
                 v.push(match r {
                     Ok(sig) => OpResult::Sig { bytes: V::sig_to_bytes(&sig), trace, preempted: 0 },
                     Err(u) => OpResult::Unwound(u),
@@ -469,8 +478,21 @@ fn run_chunk<V: Variant, W: Variant>(seed: u64, run: u64, key_index: usize, chun
                             acc.rm += 1;
                             if r.s2 == s2 && r.salt[..] == bytes[1..41] {
                                 acc.identical += 1;
+                                acc.sib[0] += 1.0;
                             } else {
                                 let rp = basis.project(&r.s1, &r.s2);
+                                // sibling leaves of the bottom nodes (leaf order: left, right, left, right, ...)
+                                let sg2 = V::SIGMA * V::SIGMA;
+                                let mut sdiff = 0.0;
+                                for k in 0..n {
+                                    let (dl, dr) = (basis.gs_norms[2 * k] * basis.gs_norms[2 * k], basis.gs_norms[2 * k + 1] * basis.gs_norms[2 * k + 1]);
+                                    let w = dl / dr - dr / dl;
+                                    let (a, b) = (2 * n + 2 * k, 2 * n + 2 * k + 1);
+                                    sdiff += w * ((p[a] * p[a] - p[b] * p[b]) - (rp[a] * rp[a] - rp[b] * rp[b])) / sg2;
+                                }
+                                acc.sib[0] += 1.0;
+                                acc.sib[1] += sdiff;
+                                acc.sib[2] += sdiff * sdiff;
                                 for d in 0..p.len() {
                                     let dd = p[d] * p[d] - rp[d] * rp[d];
                                     acc.dsq_sum[d] += dd;
@@ -660,6 +682,7 @@ fn evaluate(rep: &mut Report) {
     let mut table = Vec::new();
     // per key: (variant, paired norm z, paired z of the four Gram-Schmidt norm quartiles), pooled over keys afterwards
     let mut paired: Vec<(usize, f64, [f64; 4])> = Vec::new();
+    let mut sib_z: Vec<(usize, f64)> = Vec::new();
     for (tag, a) in accs.iter() {
         let n = (tag >> 32) as usize;
         let key = tag & 0xffff_ffff;
@@ -815,6 +838,29 @@ fn evaluate(rep: &mut Report) {
             );
             continue;
         }
+        let z_sib = if a.sib[0] >= 500.0 {
+            let mean = a.sib[1] / a.sib[0];
+            let var = a.sib[2] / a.sib[0] - mean * mean;
+            if var > 0.0 {
+                mean / (var / a.sib[0]).sqrt()
+            } else {
+                0.0
+            }
+        } else {
+            0.0
+        };
+        if let Some(Value::Object(o)) = table.last_mut() {
+            o.insert("sibling_leaves_z".into(), json!((z_sib * 100.0).round() / 100.0));
+        }
+        sib_z.push((n, z_sib));
+        if z_sib.abs() > 6.5 {
+            alarm(
+                "the two leaves of the bottom nodes against the reference signer",
+                format!("sum over bottom nodes of (d_left/d_right - d_right/d_left) * (<s,u_left>^2 - <s,u_right>^2), real minus reference: {:.1} standard errors over {} tapes", z_sib, a.sib[0]),
+                rep,
+            );
+            continue;
+        }
         if let Some(b) = (0..4).find(|&b| ref_quart_z[b].abs() > 6.5) {
             alarm(
                 "second moment of a Gram-Schmidt norm quartile against the reference signer",
@@ -882,6 +928,19 @@ fn evaluate(rep: &mut Report) {
                 detail: format!("{}: norm z {:.1}, Gram-Schmidt norm quartile z {:?} (alarm at 5.5)", label, zn, zq.iter().map(|z| (z * 10.0).round() / 10.0).collect::<Vec<_>>()),
                 replay: json!({"kind": "law_eval", "seed": seed, "tier": tier, "n": which, "key": 0}),
                 run: (1 << 42) + 999,
+            });
+        }
+    }
+    if sib_z.len() >= 2 {
+        let z = sib_z.iter().map(|p| p.1).sum::<f64>() / (sib_z.len() as f64).sqrt();
+        pooled_rows.push(json!({"over": "all keys", "keys": sib_z.len(), "sibling_leaves_z": (z * 100.0).round() / 100.0}));
+        if z.abs() > 5.5 && !rep.violations.iter().any(|v| v.class.contains("pooled over keys")) {
+            rep.violations.push(Violation {
+                property: PROP,
+                class: "signature law deviates from the reference signer's (paired statistics pooled over keys)".into(),
+                detail: format!("sibling leaves of the bottom nodes: {:.1} standard errors over {} keys (alarm at 5.5)", z, sib_z.len()),
+                replay: json!({"kind": "law_eval", "seed": seed, "tier": tier, "n": 0, "key": 0}),
+                run: (1 << 42) + 998,
             });
         }
     }
